@@ -51,6 +51,9 @@ class MethodMixin:
                     return val
                 present = self.field_read(recv, "has_" + args[0])
                 return self.merge(ctx.term(present, BOOL), val, default)
+            top = self.frames[0].contract if self.frames and hasattr(self.frames[0], "contract") else None
+            if top is not None and top.unwind == "havoc" and C.CLASSES.get(cls, {}).get("opaque_methods"):
+                return self.opaque_call(f"{cls}.{name}", args, kwargs)     # frame-only contract: an unmodelled method
             raise Unsupported(f"no contract for method {cls}.{name}")
         if isinstance(recv, tuple):
             if name == "index" or name == "count":
